@@ -22,7 +22,7 @@ CONSTANTS
   StmtKinds,    \* subset of {"call0","call1","call2","nest","nestfirst","ret","store","ref","if","op","while"}
   MaxStmts,
   Widths,       \* package-length widths; {} = rotate 1..4 with the position in the program
-  Spine,        \* TRUE: inside a block at most one production (chains Scope{Scope{..{Device}}} only): deep resolve-pass chains
+  ChainItems,   \* > 0: programs are built from that many whole "chain items" instead of single productions (see ChainItem)
   Excluded,     \* ids of findings whose trigger constructs are left out
   Emit,         \* write complete programs to IOEnv.CASES
   Bug           \* design mutant of the parser design checked by Refines ("" = none)
@@ -99,8 +99,7 @@ Step(t, dprod, dfresh) ==
   /\ st'.err = <<>> /\ st'.trig \cap Excluded = {}
   /\ nprod' = (IF t.k = "endtable" THEN 0 ELSE nprod + dprod) /\ nfresh' = nfresh + dfresh
 
-Room(n) == /\ ~InMethod(st) /\ nprod < MaxProd /\ nfresh + n <= Len(Fresh) /\ st.tab <= MaxTables
-           /\ (Spine /\ st.stack # <<>>) => (toks # <<>> /\ Last(toks).k \in {"scope", "open"})
+Room(n) == ChainItems = 0 /\ ~InMethod(st) /\ nprod < MaxProd /\ nfresh + n <= Len(Fresh) /\ st.tab <= MaxTables
 OpenObj   == /\ Room(1) /\ Depth < MaxDepth
              /\ \E kd \in OpenKinds, nm \in NextNames : \E f \in DeclForms(nm), w \in W :
                   Step([k |-> "open", kind |-> kd, f |-> f, w |-> w, args |-> OpenArgs(kd)], 1, 1)
@@ -147,8 +146,40 @@ EndOfTable == /\ st.stack = <<>> /\ nprod > 0 /\ st.tab <= MaxTables
               /\ Step([k |-> "endtable"], 0, 0)
               /\ UNCHANGED nstm /\ lastClosed' = ""
 
+(* Dependency chains over several merge/relocate passes.  One step appends a whole item                  *)
+(*   [Scope(\w){]  Scope(\X1){ Scope(X2){ ... Scope(Xk){  payload  } ... } }  [}]                        *)
+(* that re-opens an existing scope p = X1...Xk level by level (no path runs through an object), optionally  *)
+(* wrapped in a Scope directive on a predefined scope (its contents are then merged into a block that is   *)
+(* visited BEFORE the table's own objects), and declares there a Device (plain, with a ^ name, or from      *)
+(* anywhere with an absolute name = it arrives by relocation) or an Event.  A Scope into an object that    *)
+(* arrives by relocation, into which another object arrives by a merge, ... needs one pass per link.        *)
+PreFirst == CHOOSE x \in PreScopes : \A y \in PreScopes : x = "_PR_" \/ y # "_PR_"   \* the wrapper: the earliest block in tree order
+SC(f) == [k |-> "scope", f |-> f, w |-> 1 + (Len(toks) % 4)]
+FirstObj(p) == IF p # <<>> /\ p[1] \in PreScopes /\ Len(p) > 1 THEN 2 ELSE 1
+Nest(p) == IF p = <<>> THEN <<>>
+           ELSE <<SC(F(TRUE, 0, Prefix(p, FirstObj(p))))>> \o [i \in 1..(Len(p) - FirstObj(p)) |-> SC(F(FALSE, 0, <<p[FirstObj(p) + i]>>))]
+Closes(n) == [i \in 1..n |-> [k |-> "close"]]
+DevTok(f) == <<[k |-> "open", kind |-> "Device", f |-> f, w |-> 1, args |-> <<>>], [k |-> "close"]>>
+ItemToks(p, w, pay, q) ==
+  LET wrap == IF w = "" THEN <<>> ELSE <<SC(F(TRUE, 0, <<w>>))>>
+      nm == Fresh[nfresh + 1]
+      body == CASE pay = "dev"      -> DevTok(F(FALSE, 0, <<nm>>))
+                [] pay = "devcaret" -> DevTok(F(FALSE, 1, <<nm>>))
+                [] pay = "devabs"   -> DevTok(F(TRUE, 0, Append(q, nm)))
+                [] pay = "event"    -> <<[k |-> "decl", kind |-> "Event", f |-> F(FALSE, 0, <<nm>>), args |-> <<>>]>>
+  IN wrap \o Nest(p) \o body \o Closes(Len(wrap) + Len(Nest(p)))
+ChainItem == /\ ChainItems > 0 /\ nprod < ChainItems /\ nfresh < Len(Fresh) /\ st.stack = <<>> /\ st.tab <= MaxTables
+             /\ \E p \in AllScopes, w \in {"", PreFirst},
+                   pay \in {"dev", "devcaret", "devabs"} \cup (IF nprod = ChainItems - 1 THEN {"event"} ELSE {}) :
+                  \E q \in (IF pay = "devabs" /\ p = <<>> THEN AllScopes \ {<<>>} ELSE IF pay = "devabs" THEN {} ELSE {<<>>}) :
+                    LET seq == ItemToks(p, w, pay, q)  s1 == LoadFrom(st, seq, 1) IN
+                    /\ toks' = toks \o seq /\ st' = s1
+                    /\ s1.err = <<>> /\ s1.trig \cap Excluded = {}
+                    /\ nprod' = nprod + 1 /\ nfresh' = nfresh + 1
+             /\ UNCHANGED nstm /\ lastClosed' = ""
+
 Init == toks = <<>> /\ st = S0 /\ nprod = 0 /\ nfresh = 0 /\ nstm = 0 /\ lastClosed = ""
-Next == OpenObj \/ DeclObj \/ OpenMethod \/ OpenScope \/ DeclFieldList \/ Statement \/ Close \/ EndOfTable
+Next == ChainItem \/ OpenObj \/ DeclObj \/ OpenMethod \/ OpenScope \/ DeclFieldList \/ Statement \/ Close \/ EndOfTable
 
 IsComplete == toks # <<>> /\ Last(toks).k = "endtable"
 
@@ -170,5 +201,6 @@ RefinesAll == IsComplete => Same(I!Parse(toks, Bug))
 Refines == (IsComplete /\ st.trig \cap ImplDeviates = {}) => Same(I!Parse(toks, Bug))
 \* leg G: every complete program goes to the Go harness
 \* (np = merge/relocate passes per table that the design model needs: evidence that deep dependency chains are generated)
-EmitProg == (Emit /\ IsComplete) => CSVWrite("%1$s", <<ToJson([toks |-> toks, np |-> I!Parse(toks, "").passes])>>, IOEnv.CASES)
+EmitProg == (Emit /\ IsComplete) =>
+              CSVWrite("%1$s", <<ToJson([toks |-> toks, np |-> IF ChainItems > 0 THEN I!Parse(toks, "").passes ELSE <<>>])>>, IOEnv.CASES)
 ====
